@@ -120,6 +120,10 @@ class Txn:
                     neg = neg + ((c, False, scope.id),)
                 if st.orelse is not None:
                     self._walk(st.orelse, guard + neg, scope, in_loop, stack)
+                elif st.branches and all(sf._always_exits(b) for _, b in st.branches):
+                    # guard clause: `IF c THEN ..; LEAVE l; END IF;` - the rest of this block runs only when c was false (same path conditions as the
+                    # IF / ELSE spelling, cf. sf.guarded_statements)
+                    guard = guard + neg
             elif st.kind in ('loop', 'while'):
                 if st.kind == 'while':
                     self._emit(st.cond, guard, scope, True, 'ifcond')
@@ -461,6 +465,202 @@ class TokenFacts:
                             self.sites.append(Site(name, c, kind, url))
                             break
 
+    # ---- deferred evaluation: code inside lambdas / nested defs of a method ---------------------------------------------------------------
+    #
+    # A request or a token draw written inside `lambda: ...` / `async def send(): ...` is not evaluated where it stands but wherever the
+    # callable ends up being invoked - possibly more than once (retry helpers).  The facts below say where such a region goes.
+
+    def _par(self) -> Dict[ast.AST, ast.AST]:
+        return self.m.parents()
+
+    def regions_of(self, fn: pf.FuncDef, node: ast.AST) -> List[ast.AST]:
+        """lambdas / nested defs of fn that enclose node, innermost first."""
+        par = self._par()
+        out: List[ast.AST] = []
+        cur = par.get(node)
+        while cur is not None and cur is not fn:
+            if isinstance(cur, (ast.Lambda, ast.FunctionDef, ast.AsyncFunctionDef)):
+                out.append(cur)
+            cur = par.get(cur)
+        return out
+
+    def in_loop(self, node: ast.AST, stop: ast.AST) -> bool:
+        """is node inside a loop / comprehension of `stop` (not looking out of an enclosing lambda / nested def)?"""
+        par = self._par()
+        cur = par.get(node)
+        while cur is not None and cur is not stop:
+            if isinstance(cur, (ast.For, ast.AsyncFor, ast.While, ast.ListComp, ast.GeneratorExp, ast.SetComp, ast.DictComp)):
+                return True
+            if isinstance(cur, (ast.Lambda, ast.FunctionDef, ast.AsyncFunctionDef)):
+                return False
+            cur = par.get(cur)
+        return False
+
+    def region_uses(self, fn: pf.FuncDef, region: ast.AST) -> List[Tuple[str, Optional[ast.Call], Optional[ast.AST]]]:
+        """How the callable defined by `region` is used inside fn: ('arg', receiving call, the argument node) | ('called', call, None) | ('other', None, node)."""
+        par = self._par()
+        out: List[Tuple[str, Optional[ast.Call], Optional[ast.AST]]] = []
+
+        def classify(ref: ast.AST) -> None:
+            p_ = par.get(ref)
+            if isinstance(p_, ast.keyword):
+                kw = p_
+                p_ = par.get(p_)
+                if isinstance(p_, ast.Call):
+                    out.append(('arg', p_, kw))
+                    return
+            if isinstance(p_, ast.Call):
+                if p_.func is ref:
+                    out.append(('called', p_, None))
+                elif any(a is ref for a in p_.args):
+                    out.append(('arg', p_, ref))
+                else:
+                    out.append(('other', None, ref))
+                return
+            out.append(('other', None, ref))
+
+        if isinstance(region, ast.Lambda):
+            classify(region)
+        else:
+            for n in ast.walk(fn):
+                if isinstance(n, ast.Name) and n.id == region.name and isinstance(n.ctx, ast.Load) and not any(x is region for x in self.regions_of(fn, n)):  # type: ignore[union-attr]
+                    classify(n)
+        return out
+
+    def callee_of(self, call: ast.Call) -> Tuple[str, Optional[str], Optional[pf.FuncDef]]:
+        """('retry', dotted, None) | ('method', name, def) | ('func', name, def) | ('unknown', text, None)."""
+        d = pf.dotted(call.func) or ''
+        if 'retry' in d.lower():
+            return 'retry', d, None
+        f = call.func
+        if isinstance(f, ast.Attribute) and isinstance(f.value, ast.Name) and f.value.id in ('self', 'cls', self.cls_name) and f.attr in self.methods:
+            return 'method', f.attr, self.methods[f.attr]
+        if isinstance(f, ast.Name):
+            for st in self.m.tree.body:
+                if isinstance(st, (ast.FunctionDef, ast.AsyncFunctionDef)) and st.name == f.id:
+                    return 'func', f.id, st
+        return 'unknown', d or pf.nsrc(f), None
+
+    @staticmethod
+    def _params(kind: str, fn: pf.FuncDef) -> List[str]:
+        ps = [a.arg for a in fn.args.posonlyargs + fn.args.args]
+        if kind == 'method' and not any((pf.dotted(d) or '') == 'staticmethod' for d in fn.decorator_list) and ps:
+            ps = ps[1:]
+        return ps
+
+    def param_for(self, kind: str, fn: pf.FuncDef, call: ast.Call, arg: ast.AST) -> Optional[str]:
+        """the parameter of fn that receives `arg` (a positional argument node or an ast.keyword) of the call."""
+        if isinstance(arg, ast.keyword):
+            names = self._params(kind, fn) + [a.arg for a in fn.args.kwonlyargs]
+            return arg.arg if arg.arg in names else None
+        ps = self._params(kind, fn)
+        for i, a in enumerate(call.args):
+            if isinstance(a, ast.Starred):
+                return None
+            if a is arg:
+                return ps[i] if i < len(ps) else None
+        return None
+
+    def multi_params(self) -> Dict[Tuple[str, str], Set[str]]:
+        """(kind, function name) -> parameters that hold a callable the function may invoke MORE THAN ONCE: called (or handed on) inside a loop, handed
+        to a retry helper, handed to such a parameter of another function of this module, or used inside a nested def / lambda that is."""
+        universe: List[Tuple[str, str, pf.FuncDef]] = [('method', n, f) for n, f in self.methods.items()]
+        universe += [('func', st.name, st) for st in self.m.tree.body if isinstance(st, (ast.FunctionDef, ast.AsyncFunctionDef))]
+        multi: Dict[Tuple[str, str], Set[str]] = {(k, n): set() for k, n, _ in universe}
+        par = self._par()
+
+        def handed_on(call: ast.Call, arg: ast.AST) -> bool:
+            kind, name, g = self.callee_of(call)
+            if kind == 'retry':
+                return True
+            if g is None:
+                return False
+            q = self.param_for(kind, g, call, arg)
+            return q is not None and q in multi[(kind, name)]  # type: ignore[index]
+
+        def region_multi(fn: pf.FuncDef, region: ast.AST) -> bool:
+            for how, call, arg in self.region_uses(fn, region):
+                if how == 'arg' and call is not None and arg is not None and handed_on(call, arg):
+                    return True
+                if how == 'called' and call is not None and self.in_loop(call, fn):
+                    return True
+            return False
+
+        # parameters that are invoked at all (called, or handed to something that calls them)
+        may_call: Dict[Tuple[str, str], Set[str]] = {(k, n): set() for k, n, _ in universe}
+        changed = True
+        while changed:
+            changed = False
+            for kind, name, fn in universe:
+                for p_ in self._params(kind, fn) + [a.arg for a in fn.args.kwonlyargs]:
+                    if p_ in may_call[(kind, name)]:
+                        continue
+                    for ref in ast.walk(fn):
+                        if not (isinstance(ref, ast.Name) and ref.id == p_ and isinstance(ref.ctx, ast.Load)):
+                            continue
+                        up = par.get(ref)
+                        kw = None
+                        if isinstance(up, ast.keyword):
+                            kw, up = up, par.get(up)
+                        if not isinstance(up, ast.Call):
+                            continue
+                        ok = up.func is ref
+                        if not ok and (kw is not None or any(a is ref for a in up.args)):
+                            k2, n2, g2 = self.callee_of(up)
+                            if k2 == 'retry':
+                                ok = True
+                            elif g2 is not None:
+                                q = self.param_for(k2, g2, up, kw if kw is not None else ref)
+                                ok = q is not None and q in may_call[(k2, n2)]  # type: ignore[index]
+                        if ok:
+                            may_call[(kind, name)].add(p_)
+                            changed = True
+                            break
+
+        def handed_in_loop(call: ast.Call, arg: ast.AST) -> bool:
+            k2, n2, g2 = self.callee_of(call)
+            if g2 is None:
+                return False
+            q = self.param_for(k2, g2, call, arg)
+            return q is not None and q in may_call[(k2, n2)]  # type: ignore[index]
+
+        changed = True
+        while changed:
+            changed = False
+            for kind, name, fn in universe:
+                params = self._params(kind, fn) + [a.arg for a in fn.args.kwonlyargs]
+                for p_ in params:
+                    if p_ in multi[(kind, name)]:
+                        continue
+                    hit = False
+                    for ref in ast.walk(fn):
+                        if not (isinstance(ref, ast.Name) and ref.id == p_ and isinstance(ref.ctx, ast.Load)):
+                            continue
+                        up = par.get(ref)
+                        kw = None
+                        if isinstance(up, ast.keyword):
+                            kw = up
+                            up = par.get(up)
+                        if not isinstance(up, ast.Call):
+                            continue
+                        regs = self.regions_of(fn, ref)
+                        scope = regs[0] if regs else fn
+                        if up.func is ref:
+                            if self.in_loop(up, scope):
+                                hit = True
+                        elif kw is not None or any(a is ref for a in up.args):
+                            a_ = kw if kw is not None else ref
+                            if handed_on(up, a_) or (self.in_loop(up, scope) and handed_in_loop(up, a_)):
+                                hit = True
+                        if not hit and any(region_multi(fn, r) for r in regs):
+                            hit = True
+                        if hit:
+                            break
+                    if hit:
+                        multi[(kind, name)].add(p_)
+                        changed = True
+        return multi
+
     # ---- spec producers ----------------------------------------------------------------------------------
     def producers(self) -> List[Tuple[str, ast.expr, Set[str]]]:
         """(method, token value expression, key set) for every method returning a dict that carries a 'token' key (a dict literal, possibly
@@ -695,3 +895,135 @@ class TokenFacts:
             if a[0] == 'U':
                 declines.append(f'self.{attr}: {a[1]}')
         return violations, cur, declines
+
+
+# ======================================================================================================
+# Part 3: absolute id arithmetic  (C09 R5 / R6) - roles instead of names
+# ======================================================================================================
+
+def strip_int(e: ast.AST) -> ast.AST:
+    import copy
+
+    class _T(ast.NodeTransformer):
+        def visit_Call(self, node: ast.Call):
+            self.generic_visit(node)
+            if isinstance(node.func, ast.Name) and node.func.id == 'int' and len(node.args) == 1 and not node.keywords:
+                return node.args[0]
+            return node
+    return _T().visit(copy.deepcopy(e))
+
+
+def inline_expr_helpers(m: pf.Module, e: ast.AST, depth: int = 3) -> ast.AST:
+    """calls of module-level helpers whose body is one side-effect-free expression over their parameters (`return a + b - 1`) are replaced by that expression."""
+    import copy
+    from . import c41init as ci
+    helpers = {f.name: f for f in m.tree.body if isinstance(f, ast.FunctionDef)}
+    cache: Dict[str, Optional[ast.expr]] = {}
+
+    class _T(ast.NodeTransformer):
+        def __init__(self, d: int):
+            self.d = d
+
+        def visit_Call(self, node: ast.Call):
+            self.generic_visit(node)
+            if not (isinstance(node.func, ast.Name) and node.func.id in helpers and self.d > 0):
+                return node
+            h = helpers[node.func.id]
+            if h.name not in cache:
+                cache[h.name] = ci.helper_expr(h)
+            hx = cache[h.name]
+            if hx is None or not ci.is_pure(hx) or any(isinstance(x, ast.Starred) for x in node.args) or any(k.arg is None for k in node.keywords):
+                return node
+            a = h.args
+            pos = [x.arg for x in a.args]
+            params = pos + [x.arg for x in a.kwonlyargs]
+            if len(node.args) > len(pos):
+                return node
+            bound: Dict[str, ast.expr] = dict(zip(pos, node.args))
+            for k in node.keywords:
+                if k.arg in bound or k.arg not in params:
+                    return node
+                bound[k.arg] = k.value  # type: ignore[index]
+            defaults = dict(zip(pos[len(pos) - len(a.defaults):], a.defaults))
+            defaults.update({x.arg: d_ for x, d_ in zip(a.kwonlyargs, a.kw_defaults) if d_ is not None})
+            for p_ in params:
+                if p_ not in bound:
+                    if p_ not in defaults:
+                        return node
+                    bound[p_] = defaults[p_]
+            if not all(isinstance(v, (ast.Name, ast.Constant, ast.Attribute, ast.Subscript)) for v in bound.values()):
+                return node
+            out = ci._subst_names(hx, bound)
+            return _T(self.d - 1).visit(out)
+    return _T(depth).visit(copy.deepcopy(e))
+
+
+def expand_arith(fn: pf.FuncDef, e: ast.AST, depth: int = 4) -> ast.AST:
+    """single-definition locals whose definition is arithmetic, a subscript, an alias or int(..) of those are replaced by it (a `spec.pop(..)` stays the name it is bound to)."""
+    import copy
+    params = {a.arg for a in fn.args.posonlyargs + fn.args.args + fn.args.kwonlyargs}
+
+    class _S(ast.NodeTransformer):
+        def __init__(self, d: int):
+            self.d = d
+
+        def visit_Name(self, node: ast.Name):
+            if isinstance(node.ctx, ast.Load) and node.id not in params and self.d > 0:
+                dd = pf.single_def(fn, node.id)
+                if isinstance(dd, ast.expr):
+                    core = strip_int(dd)
+                    if isinstance(core, (ast.BinOp, ast.Subscript, ast.Name, ast.UnaryOp)):
+                        return _S(self.d - 1).visit(copy.deepcopy(core))
+            return node
+
+        def visit_Lambda(self, node):
+            return node
+    return _S(depth).visit(strip_int(e))
+
+
+def origin(fn: pf.FuncDef, e: ast.AST, comp_iters: Optional[Dict[str, ast.AST]] = None) -> Tuple[str, Any]:
+    """What a leaf of an id expression IS, independent of how locals are called:
+        ('key', K)       <x>['K'], or a name bound once to <x>.pop('K' ..) / <x>.get('K' ..) / <x>['K']
+        ('param', i)     the i-th parameter of fn (0 = first after self)
+        ('attr', a)      self.a
+        ('elem', o)      an element of the list with origin o (comprehension / loop target)
+        ('other', text)"""
+    comp_iters = comp_iters or {}
+    if isinstance(e, ast.Subscript) and pf.const_str(e.slice) is not None:
+        return 'key', pf.const_str(e.slice)
+    if isinstance(e, ast.Attribute) and isinstance(e.value, ast.Name) and e.value.id == 'self':
+        return 'attr', e.attr
+    if isinstance(e, ast.Name):
+        if e.id in comp_iters:
+            return 'elem', origin(fn, comp_iters[e.id], {k: v for k, v in comp_iters.items() if k != e.id})
+        ps = [a.arg for a in fn.args.posonlyargs + fn.args.args]
+        if ps and ps[0] in ('self', 'cls'):
+            ps = ps[1:]
+        if e.id in ps:
+            return 'param', ps.index(e.id)
+        d = pf.single_def(fn, e.id)
+        if isinstance(d, ast.expr):
+            core = strip_int(d)
+            if isinstance(core, ast.Call) and isinstance(core.func, ast.Attribute) and core.func.attr in ('pop', 'get') and core.args and pf.const_str(core.args[0]) is not None:
+                return 'key', pf.const_str(core.args[0])
+            if isinstance(core, (ast.Subscript, ast.Name, ast.Attribute)):
+                return origin(fn, core, comp_iters)
+    return 'other', pf.nsrc(e)
+
+
+def id_leaves(e: ast.AST) -> Dict[str, ast.AST]:
+    """linform symbol key -> the syntax node it stands for (outermost Name / Attribute / Subscript nodes of an arithmetic expression)."""
+    from .linform import _key
+    out: Dict[str, ast.AST] = {}
+
+    def rec(n: ast.AST) -> None:
+        if isinstance(n, (ast.Name, ast.Attribute, ast.Subscript)):
+            out[_key(n)] = n
+            return
+        if isinstance(n, ast.Call):
+            out[_key(n)] = n
+            return
+        for c in ast.iter_child_nodes(n):
+            rec(c)
+    rec(e)
+    return out
